@@ -10,7 +10,8 @@ import ast
 from ..context import need
 from ..loader import AnalysisError
 from .. import graph
-from ..roles import node_calls
+from ..roles import node_calls, RUN
+from ..resolve import walk_scope
 from .common import fmt_facts, is_name, const_str, is_attr_of
 
 EXPLANATION = (
@@ -33,7 +34,7 @@ UNIQ = 'xdoctest.doctest_example.DocTest.unique_callname'
 
 
 def run(ctx):
-    for fn in (r1_one_function_per_example, r2_identity, r3_one_entry_per_part, r4_dropped_lines, r5_want_comments, r6_indent, r7_prefix_free_text_is_exec_lines):
+    for fn in (r1_one_function_per_example, r2_identity, r3_one_entry_per_part, r4_dropped_lines, r5_want_comments, r6_indent, r7_prefix_free_text_is_exec_lines, r8_dump_text_always_emitted, r9_global_exec_separator_agrees, r10_dump_converts_the_enabled_doctests):
         ctx.rep.rule(fn, ctx)
 
 
@@ -471,12 +472,72 @@ def r7_prefix_free_text_is_exec_lines(ctx):
            'the dump removed from exec_lines re-appear in the generated function', witness=None if wit is None else graph.fmt_path(wit, f.module.relpath), anchor=f.qualname)
 
 
+def r8_dump_text_always_emitted(ctx):
+    """the converted module is the RESULT of the dump command, not a progress message: it is emitted at level 0 (whatever the verbosity)"""
+    rep = ctx.rep
+    f = ctx.func('xdoctest.runner.doctest_module')
+    g = ctx.cfg(f)
+    rd = ctx.rd(f)
+    conv = [n for n in g.nodes if n.kind == 'stmt' and not n.dup and isinstance(n.ast, ast.Assign) and isinstance(n.ast.value, ast.Call)
+            and ctx.res.resolve_call(f, n.ast.value)[0] == 'repo' and ctx.res.resolve_call(f, n.ast.value)[1][0].qualname == CONV and isinstance(n.ast.targets[0], ast.Name)]
+    need(len(conv) == 1, 'C19.R8: the call of _convert_to_test_module in doctest_module was not found')
+    var = conv[0].ast.targets[0].id
+    outs = [(n, c) for n in g.nodes if not n.dup for c in node_calls(n) if any(is_name(a, var) for a in c.args) and isinstance(c.func, ast.Name) and c is not conv[0].ast.value]
+    rep.floor('C19.R8', 'emissions of the converted module text', len(outs), 1)
+    for (n, c) in outs:
+        lv = next((k.value for k in c.keywords if k.arg == 'level'), None)
+        if c.func.id == 'print':
+            ok = True
+        else:
+            ok = isinstance(lv, ast.Constant) and lv.value == 0
+        rep.ob('C19.R8', ctx.loc(f, c), ctx.src(c, 60), ok,
+               'emitted whatever the verbosity' if ok else
+               'the converted module is logged at %s: with verbosity 0 (--silent / verbose=0) the dump command prints nothing at all' % ('the default level 1' if lv is None else 'level ' + ctx.src(lv)), anchor=f.qualname)
+
+
+def r9_global_exec_separator_agrees(ctx):
+    """TABLE-AGREE between siblings: `--global-exec` separates statements by a literal backslash-n; DocTest.run turns that into newlines before it
+    executes the text, the dump splits the text at the same separator into header lines.  The two constants must be the same string"""
+    rep = ctx.rep
+    fr = ctx.func(RUN)
+    fc = ctx.func(CONV)
+
+    def seps(fn, meth, nargs):
+        out = []
+        for c in walk_scope(fn.node):
+            if isinstance(c, ast.Call) and isinstance(c.func, ast.Attribute) and c.func.attr == meth and len(c.args) >= nargs and isinstance(c.args[0], ast.Constant) \
+                    and any((isinstance(x, ast.Name) and 'global' in x.id) or (isinstance(x, ast.Constant) and x.value == 'global_exec') for x in ast.walk(c.func.value)):
+                out.append(c)
+        return out
+    run_side = seps(fr, 'replace', 2)
+    dump_side = seps(fc, 'split', 1)
+    need(run_side, 'C19.R9: how DocTest.run separates the statements of global_exec was not recognised')
+    rep.floor('C19.R9', 'splits of global_exec in the dump', len(dump_side), 1)
+    a = run_side[0].args[0].value
+    for c in dump_side:
+        b = c.args[0].value
+        rep.ob('C19.R9', ctx.loc(fc, c), ctx.src(c, 70), a == b,
+               'same separator %r as the run path' % a if a == b else
+               'the dump splits global_exec at %r, the run path at %r: a multi-statement --global-exec lands in the generated functions as one line with the separator still in it '
+               '(the generated module does not parse)' % (b, a), anchor=CONV)
+
+
+def r10_dump_converts_the_enabled_doctests(ctx):
+    """"one test function per ENABLED doctest": which doctests the dump command hands to the converter is decided by the gathering of
+    doctest_module -- the same clause as C10.R5 (for `dump`, like for `all`, force-disabled doctests are left out)"""
+    from . import c10
+    from .common import run_as
+    run_as(ctx, c10.r5_gathering, 'C10.R5', 'C19.R10')
+
+
 # ---------------------------------------------------------------------------
 from ..selftest import fire, silent      # noqa: E402
 
 RN = 'xdoctest/runner.py'
 US = 'xdoctest/utils/util_str.py'
 VARIANTS = [
+    fire('dump-text-logged-at-default-level', 'C19.R8', (RN, "        _log(module_text, level=0)\n", "        _log(module_text)\n")),
+    fire('dump-splits-global-exec-at-real-newlines', 'C19.R9', (RN, "example.config['global_exec'].split('\\\\n')", "example.config['global_exec'].split('\\n')")),
     fire('prefix-free-text-cut-from-prompted-lines', 'C19.R7', ('xdoctest/doctest_part.py', "        else:\n            src_text = self.source\n", "        else:\n            src_text = '\\n'.join(ln[4:] for ln in self.orig_lines) if self.orig_lines is not None else self.source\n")),
     fire('skip-examples-with-directive', 'C19.R1', (RN, "        # if '+SKIP' in body:\n        #     continue\n", "        if '+SKIP' in body:\n            continue\n")),
     fire('body-not-indented', 'C19.R1', (RN, "        func_text = 'def {}():\\n'.format(func_name) + utils.indent(body)\n", "        func_text = 'def {}():\\n'.format(func_name) + body\n")),
